@@ -5,6 +5,19 @@ from datetime import timedelta
 
 from .. import gen, wire
 
+# change-directed budget (hx/changed.py): indicator kinds whose source differs from the recorded baseline.  Set by the engine
+# before the oracle leg runs (worker processes are forked afterwards and inherit it); empty on an unchanged tree.
+FOCUS = set()
+
+
+def pick_kind(rng, kinds, default):
+    """the rotating `default` kind, or - when some of `kinds` are in FOCUS - one of those for two thirds of the cases"""
+    hot = [k for k in kinds if k in FOCUS or str(k).upper() in FOCUS]
+    if hot and rng.random() < 0.67:
+        return rng.choice(hot)
+    return default
+
+
 
 def mk_candle(t):
     from hexital.core.candle import Candle
